@@ -834,7 +834,12 @@ fn mutate(rng: &mut Rng, m: &M, j: &mut J) -> &'static str {
             if let Some(Site::FieldVal(p, f)) = pick_site(rng, &|x| matches!(x, Site::FieldVal(..))) {
                 if let Some(v) = at_mut(j, &p) {
                     let mut c: Vec<J> = f.skips.clone();
-                    c.extend([J::Bool(true), J::Bool(false), i(0), i(50), arr(vec![]), J::Obj(vec![]), s("")]);
+                    c.extend([J::Bool(true), J::Bool(false), i(0), i(50), J::Obj(vec![]), s("")]);
+                    // (an array where a struct is expected is serde's positional form: not modelled)
+                    let is_struct = |m: &M| matches!(m, M::Obj(..)) || matches!(m, M::NullOr(x) if matches!(**x, M::Obj(..)));
+                    if !is_struct(&f.m) {
+                        c.push(arr(vec![]));
+                    }
                     if let Some(d) = &f.dflt {
                         c.push(d.clone());
                     }
